@@ -92,7 +92,10 @@ def make_callable(m, is_async, log):
     sig = m['sig']
     body = m['body']
     # is_async: False | True | 'plain' (the asynchronous dispatcher serving plain, non-coroutine functions)
+    #           | 'wrapped' (coroutine functions behind an ordinary, non-async functools.wraps decorator: a sync callable that
+    #             returns a coroutine)
     coro = bool(is_async) and m.get('coro', True) and (is_async != 'plain' or bool(m.get('yields')))
+    wrapped = is_async == 'wrapped' and coro
     ns = {'HLOG_': log, 'HEXC_': EXC_TABLE, 'pjrpc': pjrpc, 'UNSET': UNSET, 'HBODY_': body, 'HNAME_': m['name']}
     view = m['ctx'][0] == 'view'
     static = view and len(m['ctx']) > 2 and m['ctx'][2] == 'static'      # a @staticmethod exposed by the view
@@ -144,7 +147,17 @@ def make_callable(m, is_async, log):
         return ns['V'], True, fname
     src = '%s %s(%s):\n' % (kw, fname, params) + '\n'.join(lines) + '\n'
     exec(src, ns)
-    return ns[fname], False, fname
+    f = ns[fname]
+    if wrapped:
+        import functools
+
+        def deco(fn):
+            @functools.wraps(fn)
+            def wrapper(*a, **k):
+                return fn(*a, **k)
+            return wrapper
+        f = deco(f)
+    return f, False, fname
 
 
 def make_mw(i, d, is_async, log):
@@ -224,6 +237,8 @@ def build(cfg, is_async, log, **extra):
     # the `middlewares` parameter is typed Iterable: a list, a tuple or a one-shot iterator / generator
     how = cfg.get('mw_as', 'list')
     mw_arg = {'list': lambda: mws, 'tuple': lambda: tuple(mws), 'iter': lambda: iter(mws), 'gen': lambda: (m for m in mws)}[how]()
+    if is_async and cfg.get('seq'):
+        extra = dict(extra, concurrent_batch=False)       # batch elements one after the other
     disp = cls(middlewares=mw_arg, error_handlers=ehs, max_batch_size=cfg.get('max_batch'), **extra)
     shared = {}
     for m in cfg['methods']:
